@@ -1100,7 +1100,7 @@ def _cap_model_cost(strs, m, heavy):
     mapped entry: a case costs about B x (sum of the mapped entries' lengths) steps. Entries of several KB mapped by long
     maps are kept in the designated heavy cases only; elsewhere the longest mapped entries are shortened until the
     case costs about 6 x 10^5 steps (e.g. one 750-byte entry mapped once, or a 53-byte entry mapped 200 times)"""
-    cap = 1.5e7 if heavy else 6.0e5
+    cap = 1.7e7 if heavy else 6.0e5
     strs = list(strs)
     rows = [k for k in m if k is not None and 0 <= k < len(strs)]
     for _ in range(200):
@@ -1225,6 +1225,8 @@ def _gen_callforms(big, rng):
                 lens[rng.choice(valid)] = big_one              # one mapped entry far longer than 8 x len(map)
             elif rng.random() < 0.5:
                 lens[rng.randrange(Ls)] = big_one
+            if k % 50 == 7 and valid:                         # the designated heavy cases: an entry of 1-4 KB, mapped
+                lens[valid[0]] = rng.choice([1000, 2047, 3000, 4096])
             if sum(lens) > 40000:
                 lens = [x if x > 64 and i % 7 == 0 else min(x, 9) for i, x in enumerate(lens)]
             c.update({'op': 'istream', 'strs': _strs(lens), 'heavy': k % 50 == 7})
